@@ -99,6 +99,8 @@ pub enum Num {
     Units { sections: Vec<(Section, u32)>, frac: Option<Vec<u8>>, style: u8, sel: u32 },
     /// d.dd x small unit and / or large unit
     FracUnit { int: Vec<u8>, frac: Vec<u8>, small: Option<u32>, large: Option<u32> },
+    /// a number with thousands separators times a small unit and / or a large unit (1,234千; 123,456百万: amounts of financial statements)
+    CommaUnit { first: Vec<u8>, groups: Vec<[u8; 3]>, small: Option<u32>, large: Option<u32> },
 }
 
 fn small_form(v: u16, omit_one: bool, style: u8, sel: u32) -> String {
@@ -208,6 +210,20 @@ impl Num {
                         e.push('.');
                         e.push_str(&t);
                     }
+                }
+                (s, e)
+            }
+            Num::CommaUnit { first, groups, small, large } => {
+                let mut s = digits_str(first);
+                let mut e = digits_str(first);
+                for g in groups {
+                    s.push(',');
+                    s.push_str(&digits_str(g));
+                    e.push_str(&digits_str(g));
+                }
+                for u in [small, large].into_iter().flatten() {
+                    s.push(unit_char(*u));
+                    e.push_str(&"0".repeat(*u as usize));
                 }
                 (s, e)
             }
